@@ -110,6 +110,15 @@ func newC11Shared() *c11Shared {
 		sh.files = append(sh.files, b)
 		sh.formats = append(sh.formats, "PNG")
 	}
+	for k := 0; k < 2; k++ {
+		s := pngSpecFor(21, 22, 2, 8, 0, core.NewRNG(1, "c11twin"))
+		prof := bytes.Repeat([]byte{byte('A' + k)}, 600)
+		s.ICC = &imggen.PNGICC{Name: "twin", Profile: prof, Level: 0}
+		s.FixedICCCRC = 0xCAFEF00D // the loaders do not verify CRCs; the file is still unambiguous
+		b, _ := s.Build()
+		sh.files = append(sh.files, b)
+		sh.formats = append(sh.formats, "PNG")
+	}
 	rng := core.NewRNG(1, "c11shared")
 	sh.profiles = [][]byte{structuredProfile(rng, 0), structuredProfile(rng, 4)}
 	sh.srcImg = image.NewNRGBA(image.Rect(0, 0, 19, 13))
@@ -208,8 +217,9 @@ func c11Step(target string, g, it int, sh *c11Shared) uint64 {
 		rows := 4 + (g+it/50)%7
 		r := image.Rect(1, 2, 12, 2+rows)
 		src := image.NewRGBA64(r)
-		for i := 0; i < len(src.Pix); i += 8 { // runs of equal pixels, valid premultiplied
-			v := byte((i/8/3)*29 + g)
+		for i := 0; i < len(src.Pix); i += 8 { // runs of equal pixels and pairs of identical rows, valid premultiplied
+			col, row := (i/8)%11, (i/8)/11
+			v := byte((col/3)*29 + (row/2)*7 + g)
 			src.Pix[i], src.Pix[i+2], src.Pix[i+4], src.Pix[i+6] = v/2, v/3, v/4, v
 			src.Pix[i+1], src.Pix[i+3], src.Pix[i+5], src.Pix[i+7] = 0, 0, 0, 0
 		}
@@ -333,6 +343,16 @@ func childC11(args []string) int {
 				}
 			}()
 			<-start
+			if park == 1 {
+				// staggered arrivals: later goroutines reach their first call while the first
+				// caller's lazy initialisation is still under way (not all at the same instant)
+				for spin := 0; spin < g*4000; spin++ {
+					runtime.Gosched()
+					if spin%64 == 0 {
+						_ = time.Now()
+					}
+				}
+			}
 			t0[g] = time.Now()
 			h := c11Step(target, g, 0, sh)
 			t1[g] = time.Now()
